@@ -307,6 +307,7 @@ func newTestConfig(o pairOpt) (*Config, string) {
 	if o.sizes != nil {
 		conf.BufferSliceSizes = o.sizes
 	}
+	conf.InitializeTimeout = 10 * time.Second // a loaded machine must not fail handshakes the scenario does not mean to fail
 	if o.initTO != 0 {
 		conf.InitializeTimeout = o.initTO
 	}
